@@ -78,6 +78,13 @@ Theorem C10_prefixed_char_literal_value pre sp v : c_char sp v -> v < 128 ->
 Proof. exact (prefixed_char_literal pre sp v). Qed.
 Print Assumptions C10_prefixed_char_literal_value.
 
+(* ... and for an octal, hexadecimal or universal escape with an ASCII value after a prefix *)
+Theorem C10_prefixed_char_literal_value_ext pre sp v : c_char_ext 39 sp v -> v < 128 ->
+  pre = [117; 56] \/ pre = [117] \/ pre = [85] \/ pre = [76] ->
+  char_literal_to_ll (pre ++ 39 :: sp ++ [39]) = Some (Z.of_N v).
+Proof. exact (prefixed_char_literal_ext pre sp v). Qed.
+Print Assumptions C10_prefixed_char_literal_value_ext.
+
 (* casts: truncateIntValue is the conversion to an integer type of `size` bytes *)
 Theorem C10_cast_value z size signed : 1 <= size -> size <= 8 ->
   let bits := Z.of_N (8 * size) in
